@@ -285,15 +285,26 @@ Fixpoint first_bad (ok : pv -> bool) (d : list (string * pv)) (ks : list string)
               end
   end.
 
-(* claims.py _validate_claim_types *)
-Definition claim_types (d : list (string * pv)) : out unit :=
-  match first_bad str_list d ARRAY_CLAIMS with
+(* claims.py _validate_claim_types (RFC 7591 and OpenID Connect registration): the members listed as arrays are arrays of
+   strings, the members listed as strings are strings; the first member of another type is named *)
+Definition typed_members (arrays strings : list string) (d : list (string * pv)) : out unit :=
+  match first_bad str_list d arrays with
   | Some k => Refuse "invalid_client_metadata" (Some k)
-  | None => match first_bad is_str d STRING_CLAIMS with
+  | None => match first_bad is_str d strings with
             | Some k => Refuse "invalid_client_metadata" (Some k)
             | None => Val tt
             end
   end.
+Definition claim_types := typed_members ARRAY_CLAIMS STRING_CLAIMS.
+
+(* oidc/registration/claims.py *)
+Definition OIDC_ARRAY_CLAIMS := ["default_acr_values"; "request_uris"].
+Definition OIDC_STRING_CLAIMS :=
+  ["token_endpoint_auth_signing_alg"; "application_type"; "sector_identifier_uri"; "subject_type"; "id_token_signed_response_alg";
+   "id_token_encrypted_response_alg"; "id_token_encrypted_response_enc"; "userinfo_signed_response_alg"; "userinfo_encrypted_response_alg";
+   "userinfo_encrypted_response_enc"; "initiate_login_uri"; "request_object_signing_alg"; "request_object_encryption_alg";
+   "request_object_encryption_enc"].
+Definition oidc_claim_types := typed_members OIDC_ARRAY_CLAIMS OIDC_STRING_CLAIMS.
 
 Section Metadata.
 Variable is_valid_url : string -> bool.
